@@ -201,11 +201,21 @@ Definition setitem (p u : str) (sh : sheet) : sheet * outcome :=
       end
   end.
 
-(* _Namespaces.__delitem__ (util.py:771-786): the index AMONG @namespace rules is handed to deleteRule as written *)
+(* _Namespaces.__delitem__ (util.py:771-786), as repaired by "fix: del sheet.namespaces[prefix] passes the rule's
+   index in cssRules": the rule found by __findrule is deleted through its ABSOLUTE index *)
+Fixpoint ns_abs (k : nat) (sh : sheet) : option nat :=
+  match sh with
+  | [] => None
+  | RNs _ :: t => match k with O => Some O | S k' => option_map S (ns_abs k' t) end
+  | _ :: t => option_map S (ns_abs k t)
+  end.
 Definition delitem (p : str) (sh : sheet) : sheet * outcome :=
   match find_last p (nsl sh) with
   | None => (sh, Raise ENamespace)
-  | Some k => delete_rule k sh
+  | Some k => match ns_abs k sh with
+              | Some j => delete_rule j sh
+              | None => (sh, Raise EIndex)      (* unreachable: k indexes an @namespace rule *)
+              end
   end.
 
 (* ------------------------------------------------------------------ operations *)
